@@ -170,7 +170,6 @@ def run(ctx):
                     if isinstance(f.data_type, pydsdl.ArrayType):
                         want["cap." + f.name] = f.data_type.capacity
                         want["var." + f.name] = int(isinstance(f.data_type, pydsdl.VariableLengthArrayType))
-            else:
             for k, w in want.items():
                 ctx.count("metadata-items-compared")
                 if str(d.get(k)) != str(w):
